@@ -11,13 +11,12 @@ META = {
     "note": "Universe: repository fixtures x 3 configurations + 2 input variants + generated micro designs. Known findings of the unchanged tree are listed in known_findings.json by (rule, file, configuration, variant).",
 }
 
-DEDUCTIVE = []
+DEDUCTIVE = ['vsg.vhdlFile.vhdlFile.vhdlFile.update', 'vsg.vhdlFile.vhdlFile.remove_beginning_of_file_tokens', 'vsg.rules.token_case.token_case._fix_violation', 'vsg.rules.whitespace_between_tokens.Rule._fix_violation', 'vsg.rules.token_indent.token_indent._fix_violation', 'vsg.rule.Rule._filter_out_fix_only_violations', 'vsg.vhdlFile.vhdlFile.split_on_carriage_return', 'vsg.vhdlFile.vhdlFile.vhdlFile.get_lines']
 
 
 def run():
     c = Check("C19", "other")
     c.engine = Engine()
-    if DEDUCTIVE:
-        c.deductive(DEDUCTIVE)
+    c.deductive(sorted(q for q in c.engine.contracts if q.startswith("vsg.tokens.")) + DEDUCTIVE)
     _pipeline.pipeline_part(c, "C19")
     return c.finish({"explanation": META["text"]})
